@@ -4,12 +4,18 @@ package sym
 // (regexp) and bridges that convert interpreter values to Go values.
 
 import (
+	"fmt"
 	"regexp"
 )
 
 type nativeObj struct{ v any }
 
 func init() {
+	// ulid: arbitrary but pairwise distinct ids (the library's contract)
+	intrinsics["github.com/titpetric/vuego/internal/ulid.String"] = func(fr *frame, a []value) value {
+		fr.i.ulidCounter++
+		return fmt.Sprintf("01ZZVERIF%017d", fr.i.ulidCounter)
+	}
 	intrinsics["(runtime.errorString).Error"] = func(fr *frame, a []value) value { return a[0] }
 	intrinsics["regexp.MustCompile"] = func(fr *frame, a []value) value {
 		var cell value = nativeObj{regexp.MustCompile(fr.i.concStr(a[0]))}
